@@ -1640,6 +1640,9 @@ class Stream(AbstractStream):
             self._imol.data = other._imol.data
         if phase and self._imol.data.ndim == 1:
             self._imol._phase = other._imol._phase
+        if TP:
+            # Equilibrium objects hold a reference to the thermal condition
+            self.reset_cache()
             
     def unlink(self):
         """
